@@ -6,8 +6,8 @@ recursion level of the closure simplify_term_unitary; every level is compared
 exactly (modulo factor order) with the Gallina function
 ADC.Models.Unitary.unitary_pass evaluated by vm_compute, the final result must
 be reachable in the rewriting relation, and - where it is reachable through
-steps that satisfy the side condition of C20_unitary_step_sound - theorem
-C20_reachable_sound gives value preservation for all orthogonal models.  All
+steps of the executable pass on well-formed terms (check_tree) - theorem
+C20_check_tree_sound gives value preservation for all orthogonal models.  All
 cases are additionally evaluated on random orthogonal matrices over F_P
 (Cayley transform) to find concrete failing inputs."""
 import itertools
@@ -49,7 +49,15 @@ ASSUMPTIONS = [
     "value = Core/Expr.v eval_term with the targets of the *input* (provided, "
     "or Einstein targets of the input term); the Einstein targets that the "
     "output would re-derive are compared separately and reported as notes",
+    "sum factors are homogeneous (every summand carries all non-target "
+    "indices of the sum); inputs in which simplify_unitary multiplies out a "
+    "heterogeneous sum are compared with the model but not value-checked "
+    "(Expr.expand() changes their value in the same way)",
     "delta evaluation itself (func.evaluate_deltas) is the subject of C09; "
+    "results on which it removes a delta whose indices are contracted and on "
+    "no other object (outside C09's coverage hypothesis) change the value: "
+    "open known finding C20:evaluate-deltas-isolated-delta, reported per case "
+    "after checking that lost sums explain the change exactly; "
     "here only its composition with simplify_unitary (which targets it is "
     "given) and the value of the composed result are checked per run",
 ]
@@ -57,6 +65,8 @@ ASSUMPTIONS = [
 KEY_SQUARE = "C20:square-of-unitary:U_pq**2"
 KEY_DELTAS = "C20:evaluate-deltas-ignores-provided-targets:U_pq*U_pr*T_q[q,r]"
 KEY_SUM = "C20:sum-remainder-truncated:U_pq**2*(e_q+e_s)[q,s]"
+KEY_ISOLATED = ("C20:evaluate-deltas-isolated-delta:created delta connects two "
+                "contracted indices occurring nowhere else")
 
 SPACE_OF = {"o": "occ", "v": "virt", "g": "general"}
 COQ_SPACE = {"occ": "Occ", "virt": "Virt", "general": "Gen"}
@@ -228,6 +238,9 @@ def malformed_spec(rng):
 
 CORPUS = [
     # the shapes of tests/simplify_test.py and of the findings
+    {"name": "U", "targets": [], "sort": ["general", ""], "kind": "corpus",
+     "terms": [{"coef": "2", "facs": [["U", "N", [["p", ""], ["q", ""]], 1],
+                                      ["U", "N", [["p", ""], ["r", ""]], 1]]}]},
     {"name": "U", "targets": None, "sort": ["general", ""], "kind": "corpus",
      "terms": [{"coef": "1", "facs": [["U", "N", [["p", ""], ["q", ""]], 2]]}]},
     {"name": "U", "targets": [], "sort": ["general", ""], "kind": "corpus",
@@ -278,7 +291,9 @@ def run_impl(spec):
     except NotImplementedError as ex:
         c.res = None
         c.raised = repr(ex)
-    c.groups = tr.groups
+    c.trees = tr.roots
+    c.groups = [[(n["sym"], n["target"]) for n in U.preorder(r)]
+                for r in tr.roots]       # preorder lists, for reports
     c.res_ed = None
     c.ed_exc = None
     if c.raised is None:
@@ -295,32 +310,41 @@ def coq_prov(tg):
     return "(Some " + adcio.coq_list(x.coq() for x in tg) + ")"
 
 
+def coq_tree(node):
+    return (f"(ONode {adcio.coq_term(node['py'])} "
+            f"{adcio.coq_list(x.coq() for x in node['tg'])} "
+            f"{adcio.coq_list(coq_tree(k) for k in node['kids'])})")
+
+
 def prepare(c):
-    """serialise the recorded levels; returns list of Coq case strings (one
-    per input term)"""
+    """serialise the recorded call trees; returns list of Coq case strings
+    (one per input term).  c.levels[g] / c.tgobs[g]: pyterms / observed
+    targets of the nodes of tree g in preorder (index 0 = the input term);
+    c.leaves[g]: preorder indices of the nodes that returned; c.kids[g][k]:
+    preorder indices of the calls made from node k"""
     ictx = adcio.IdxCtx()
     c.ictx = ictx
     spec = c.spec
     ptg = c.E.provided_target_idx
     c.prov = None if ptg is None else [ictx.conv(x) for x in ptg]
-    c.levels = []       # per group: list of pyterms
-    c.tgobs = []        # per group: list of observed target lists
+    c.levels, c.tgobs, c.leaves, c.kids = [], [], [], []
     cases = []
     sp, sn = spec["sort"]
-    for g, grp in enumerate(c.groups):
-        lv, tg = [], []
-        for sym, target in grp:
-            lv.append(adcio.conv_term(sym, ictx))
-            tg.append([ictx.conv(x) for x in target])
-        c.levels.append(lv)
-        c.tgobs.append(tg)
-        raised = c.raised is not None and g == len(c.groups) - 1
+    for g, root in enumerate(c.trees):
+        nodes = U.preorder(root)
+        for n in nodes:
+            n["py"] = adcio.conv_term(n["sym"], ictx)
+            n["tg"] = [ictx.conv(x) for x in n["target"]]
+        pos = {id(n): k for k, n in enumerate(nodes)}
+        c.levels.append([n["py"] for n in nodes])
+        c.tgobs.append([n["tg"] for n in nodes])
+        c.kids.append([[pos[id(k)] for k in n["kids"]] for n in nodes])
+        c.leaves.append([k for k, n in enumerate(nodes) if not n["kids"]])
+        raised = c.raised is not None and g == len(c.trees) - 1
         cases.append(
             f"check_case {adcio.coq_str(spec['name'])} {COQ_SPACE[sp]} "
-            f"{COQ_SPIN[sn]} {coq_prov(c.prov)} "
-            f"{adcio.coq_list(adcio.coq_term(t) for t in lv)} "
-            f"{'true' if raised else 'false'} "
-            + adcio.coq_list(adcio.coq_list(x.coq() for x in t) for t in tg))
+            f"{COQ_SPIN[sn]} {coq_prov(c.prov)} {coq_tree(root)} "
+            f"{U.depth(root)} {'true' if raised else 'false'}")
     return cases
 
 
@@ -328,9 +352,10 @@ def prepare_ed(c):
     """evaluate_deltas=True against the fragment model: one-term inputs whose
     simplified form carries exactly one delta (then the order in which sympy
     lists several deltas cannot matter)"""
-    if c.raised is not None or c.res_ed is None or len(c.groups) != 1:
+    if c.raised is not None or c.res_ed is None or len(c.trees) != 1 \
+            or len(c.leaves[0]) != 1:
         return None
-    last = c.levels[0][-1]
+    last = c.levels[0][c.leaves[0][0]]
     nd = sum(1 for a, inv_ in last[1] if a[0] == "D")
     if nd != 1 or any(a[0] == "D" and inv_ for a, inv_ in last[1]):
         return None
@@ -441,24 +466,32 @@ def is_single_sort(c):
     return True
 
 
+def leaf_terms(c, g):
+    return [c.levels[g][k] for k in c.leaves[g]]
+
+
 def lost_index_levels(c, g):
-    """levels of group g at which a second non-target index disappeared"""
+    """nodes of tree g at which a second non-target index disappeared"""
     out = []
     lv = c.levels[g]
     tg0 = set(c.prov) if c.prov is not None else set(c.tgobs[g][0])
-    for k in range(len(lv) - 1):
+    for k, kids in enumerate(c.kids[g]):
+        if len(kids) != 1:
+            continue
         gone = set(adcio.term_indices(lv[k])) - \
-            set(adcio.term_indices(lv[k + 1])) - tg0
+            set(adcio.term_indices(lv[kids[0]])) - tg0
         if len(gone) >= 2:
             out.append((k, sorted(repr(x) for x in gone)))
     return out
 
 
 def sum_truncation(c, g):
-    """a level whose successor is one summand of a sum (term.terms[0])"""
+    """a node whose only successor is one summand of a sum (terms[0])"""
     grp = c.groups[g]
-    for k in range(len(grp) - 1):
-        cur, nxt = grp[k][0], grp[k + 1][0]
+    for k, kids in enumerate(c.kids[g]):
+        if len(kids) != 1:
+            continue
+        cur, nxt = grp[k][0], grp[kids[0]][0]
         nadd = sum(1 for a in cur.args if isinstance(a, Add)) \
             if cur.is_Mul else 0
         nadd_n = sum(1 for a in nxt.args if isinstance(a, Add)) \
@@ -468,6 +501,76 @@ def sum_truncation(c, g):
     return None
 
 
+def heterogeneous_sum(c, g):
+    """a sum was multiplied out whose summands do not all carry the same
+    non-target indices: the input itself is ill-formed (multiplying it out,
+    as Expr.expand() does, changes the value in the library's own reading)"""
+    tg0 = set(c.prov) if c.prov is not None else set(c.tgobs[g][0])
+    for k, kids in enumerate(c.kids[g]):
+        if len(kids) > 1:
+            sets = {frozenset(set(adcio.term_indices(c.levels[g][j])) - tg0)
+                    for j in kids}
+            if len(sets) > 1:
+                return True
+    return False
+
+
+def only_on_deltas(t, tg):
+    """non-target indices of pyterm t that occur on no non-delta object"""
+    on_other = set()
+    for a, _ in t[1]:
+        if a[0] != "D":
+            on_other |= set(adcio.atom_indices(a))
+    return [i for i in dict.fromkeys(adcio.term_indices(t))
+            if i not in on_other and i not in set(tg)]
+
+
+def lost_sum_power(models, t, e, tg, rng, kmax=3):
+    """0 if t and e have the same value everywhere; k >= 1 if value(t) =
+    dim^k * value(e) for every model / target assignment (dim = number of
+    orbitals of the sort); None otherwise"""
+    pairs = []
+    for m in models:
+        for tgenv in numeric.target_assignments(m, list(tg), 6, rng):
+            pairs.append((m.dim, m.eval_expr(t, tgenv), m.eval_expr(e, tgenv)))
+    if all(v1 == v2 for _, v1, v2 in pairs):
+        return 0
+    for k in range(1, kmax + 1):
+        if all(v1 == pow(dm, k, numeric.P) * v2 % numeric.P
+               for dm, v1, v2 in pairs):
+            return k
+    return None
+
+
+def isolated_delta_class(c, models, tg, rng):
+    """the value change of evaluate_deltas=True is explained term by term:
+    func.evaluate_deltas (given the provided targets) maps every term of the
+    evaluate_deltas=False result either to a term of equal value, or - for
+    terms in which a contracted index occurs on deltas only - to one whose
+    value is smaller by exactly dim^k (k lost sums).  Returns a description,
+    or None if anything else is going on."""
+    import adcgen.func as func
+    ptg = c.E.provided_target_idx
+    terms = Add.make_args(c.res.sympy)
+    eterms = [func.evaluate_deltas(t, target_idx=ptg) for t in terms]
+    if (Add(*eterms) - c.res_ed.sympy) != 0:
+        return None
+    expl = []
+    for t, e in zip(terms, eterms):
+        pt = adcio.conv_expr(t, c.ictx)
+        pe = adcio.conv_expr(e, c.ictx)
+        k = lost_sum_power(models, pt, pe, tg, rng)
+        if k is None:
+            return None
+        if k > 0:
+            lonely = [i for x in pt for i in only_on_deltas(x, tg)]
+            if not lonely:
+                return None
+            expl.append(f"{t} -> {e}: {k} sum(s) lost, contracted indices "
+                        f"on deltas only: {sorted(repr(i) for i in lonely)}")
+    return expl or None
+
+
 def describe(c):
     return {"spec": c.spec, "input": str(c.E.sympy)[:600],
             "targets": None if c.prov is None else [repr(x) for x in c.prov],
@@ -475,6 +578,7 @@ def describe(c):
             "output_evaluate_deltas": None if c.res_ed is None
             else str(c.res_ed.sympy)[:600],
             "levels": [[str(s)[:300] for s, _ in grp] for grp in c.groups],
+            "calls_from_node": getattr(c, "kids", None),
             "raised": c.raised}
 
 
@@ -485,8 +589,7 @@ def judge(ctx, c, verdicts, stats):
     label = spec["kind"]
     steps = sum(len(g) - 1 for g in c.groups)
     refused = False
-    for g in c.levels:
-        last = g[-1]
+    for last in [t for g in range(len(c.levels)) for t in leaf_terms(c, g)]:
         us = [a for a, inv_ in last[1] if a[0] == "T" and a[2] == spec["name"]
               and not inv_ and len(adcio.atom_indices(a)) == 2]
         for x, y in itertools.combinations(us, 2):
@@ -506,7 +609,7 @@ def judge(ctx, c, verdicts, stats):
     unexplained = []
     # the tracer must have seen one call group per term of the input
     nterms = len(c.E.terms)
-    seen = len(c.groups)
+    seen = len(c.trees)
     ok_tr = (seen == nterms) if c.raised is None else (1 <= seen <= nterms)
     if not ctx.obligation(f"tracer recorded every term {label}", ok_tr,
                           f"groups={seen} terms={nterms}"):
@@ -535,14 +638,15 @@ def judge(ctx, c, verdicts, stats):
                                  f"{label}", reach)
             if not okr and ok:
                 unexplained.append((g, "reach", []))
-            if reach_safe and single:
+            if reach_safe:      # check_tree: covered by C20_check_tree_sound
                 stats["covered_by_theorem"] += 1
-            elif reach:
-                stats["outside_side_condition"] += 1
+            else:
+                stats["not_covered_by_theorem"] += 1
 
     # ---- structural: result is the sum of the per-term results ---------------
     if c.raised is None:
-        finals = [grp[-1][0] for grp in c.groups]
+        finals = [c.groups[g][k][0] for g in range(len(c.groups))
+                  for k in c.leaves[g]]
         same = (Add(*finals) - c.res.sympy) == 0 if finals \
             else c.res.sympy == 0
         if not ctx.obligation(f"result is the sum of the per-term results "
@@ -567,8 +671,11 @@ def judge(ctx, c, verdicts, stats):
             if term_cost(lv[0], tg, 3) > 30000:
                 stats["value_skipped"] += 1
                 continue
+            if heterogeneous_sum(c, g):
+                stats["heterogeneous_sum_skipped"] += 1
+                continue
             try:
-                d = value_diff(models, [lv[0]], [lv[-1]], tg, rng)
+                d = value_diff(models, [lv[0]], leaf_terms(c, g), tg, rng)
             except Exception as ex:  # evaluator outside its domain
                 ctx.note(f"numeric evaluation failed: {ex!r}")
                 continue
@@ -576,8 +683,10 @@ def judge(ctx, c, verdicts, stats):
             if d is not None:
                 failing[g] = d
             # Einstein targets the output would re-derive (note only)
-            if c.prov is None and lv[-1][1] and \
-                    set(c.tgobs[g][0]) != set(c.tgobs[g][-1]):
+            if c.prov is None and any(
+                    c.levels[g][k][1] and
+                    set(c.tgobs[g][0]) != set(c.tgobs[g][k])
+                    for k in c.leaves[g]):
                 stats["einstein_target_drift"] += 1
     for g, d in failing.items():
         lost = lost_index_levels(c, g)
@@ -615,7 +724,7 @@ def judge(ctx, c, verdicts, stats):
         if single and c.raised is None and models is not None:
             tg = c.prov if c.prov is not None else c.tgobs[g][0]
             try:
-                d = value_diff(models, [c.levels[g][0]], [c.levels[g][-1]],
+                d = value_diff(models, [c.levels[g][0]], leaf_terms(c, g),
                                tg, rng, assigns=20)
             except Exception:  # noqa
                 d = None
@@ -673,17 +782,25 @@ def judge(ctx, c, verdicts, stats):
             rep = describe(c)
             rep["difference"] = d
             rep["target_respecting_delta_evaluation"] = str(respect)[:600]
-            drift = c.prov is None and any(
-                set(t[0]) != set(t[-1]) for t in c.tgobs)
-            if d2 is not None and not drift:
-                # func.evaluate_deltas changes the value even when it is given
-                # the right targets: subject of C09, not of simplify_unitary
-                stats["evaluate_deltas_itself_changes_value_C09"] += 1
-                if stats["evaluate_deltas_itself_changes_value_C09"] <= 3:
-                    ctx.note("func.evaluate_deltas (with the correct targets) "
-                             "changes the value of " + str(c.res.sympy)[:200]
-                             + f" targets {c.prov} -> " + str(respect)[:200]
-                             + " (C09)")
+            iso = None
+            if c.prov is not None and same:
+                try:
+                    iso = isolated_delta_class(c, models, tg, rng)
+                except Exception as ex:  # noqa
+                    ctx.note(f"classification failed: {ex!r}")
+            if iso is not None:
+                # known finding: the follow-up delta evaluation removes a
+                # delta whose indices are contracted and occur on no other
+                # object (outside the coverage hypothesis of C09); every
+                # term whose value changes is explained exactly by lost sums
+                stats["ed_isolated_delta_known_finding"] += 1
+                rep["analysis"] = iso
+                ctx.violation(KEY_ISOLATED, "simplify_unitary(2*U_pq*U_pr,'U',"
+                              "evaluate_deltas=True), no targets -> 2 (value "
+                              "2N): the follow-up delta evaluation removes a "
+                              "delta whose two indices are both contracted and "
+                              "occur on no other object, losing the sum", rep,
+                              True)
                 return
             ctx.obligation(f"value preserved with evaluate_deltas {label}",
                            False)
@@ -744,10 +861,11 @@ def run(ctx):
     rng = ctx.rng
     quick = ctx.tier == "quick"
     stats = {k: 0 for k in (
-        "levels", "covered_by_theorem", "outside_side_condition",
+        "levels", "covered_by_theorem", "not_covered_by_theorem",
         "value_checked", "value_skipped", "einstein_target_drift", "ed_cases",
         "ed_differs_from_target_respecting", "ed_value_checked",
-        "evaluate_deltas_itself_changes_value_C09", "ed_fragment_compared")}
+        "ed_isolated_delta_known_finding", "ed_fragment_compared",
+        "heterogeneous_sum_skipped")}
     run_specs(ctx, CORPUS, "corpus", stats)
     run_specs(ctx, exhaustive_specs(full=False), "exh", stats)
     if not quick:
@@ -777,12 +895,13 @@ def replay(ctx, rep):
           None if c.res_ed is None else c.res_ed.sympy)
     for grp in c.groups:
         print("levels:", [str(s) for s, _ in grp])
-    print("model verdicts (codes per level, reachable, reachable-safe):", vals)
+    print("model verdicts (codes per call in preorder, reachable, check_tree):", vals)
     stats = {k: 0 for k in (
-        "levels", "covered_by_theorem", "outside_side_condition",
+        "levels", "covered_by_theorem", "not_covered_by_theorem",
         "value_checked", "value_skipped", "einstein_target_drift", "ed_cases",
         "ed_differs_from_target_respecting", "ed_value_checked",
-        "evaluate_deltas_itself_changes_value_C09", "ed_fragment_compared")}
+        "ed_isolated_delta_known_finding", "ed_fragment_compared",
+        "heterogeneous_sum_skipped")}
     judge(ctx, c, vals, stats)
     for v in ctx.violations:
         print("VIOLATION", v["key"], v["what"],
